@@ -306,7 +306,17 @@ func zzG09ConcNet(b, l int) (s string) { return fmt.Sprintf("127.%d.0.0/%d", 8+(
 
 var zzG09CidNames = []string{"", "kid", "xid", "zid"}
 
-func zzG09AbsCid(s string) (n string) { return strings.ToLower(s) }
+// zzG09AbsCid maps a ClientID string to its number (0 = none, -1 = unknown).
+func zzG09AbsCid(s string) (n int) {
+	s = strings.ToLower(s)
+	for i, x := range zzG09CidNames {
+		if x == s {
+			return i
+		}
+	}
+
+	return -1
+}
 
 var zzG09ClientNames = []string{"", "alpha", "beta", "gamma"}
 
@@ -684,7 +694,7 @@ func (sys *zzG09Sys) query(rng *rand.Rand, op zzG09M, dropWait time.Duration) (r
 // zzG09LogItem is one projected item of GET /control/querylog.
 type zzG09LogItem struct {
 	Addr    int      `json:"addr"`
-	Cid     string   `json:"cid"`
+	Cid     int      `json:"cid"`
 	N       []string `json:"n"`
 	T       string   `json:"t"`
 	Reason  string   `json:"reason"`
@@ -762,17 +772,25 @@ func zzG09ReadLog() (items []zzG09LogItem, err error) {
 
 // zzG09Stats is the projection of GET /control/stats.
 type zzG09Count struct {
-	K string `json:"k"`
+	K []string `json:"k"`
+	C int      `json:"c"`
+}
+
+// zzG09CliCount is one top_clients entry: T = "a" (address number V, -1 if it
+// is not an address of the universe) or "c" (ClientID number V).
+type zzG09CliCount struct {
+	T string `json:"t"`
+	V int    `json:"v"`
 	C int    `json:"c"`
 }
 
 type zzG09Stats struct {
-	Total   int          `json:"total"`
-	Blocked int          `json:"blocked"`
-	Other   int          `json:"other"`
-	Dom     []zzG09Count `json:"dom"`
-	BDom    []zzG09Count `json:"bdom"`
-	Cli     []zzG09Count `json:"cli"`
+	Total   int             `json:"total"`
+	Blocked int             `json:"blocked"`
+	Other   int             `json:"other"`
+	Dom     []zzG09Count    `json:"dom"`
+	BDom    []zzG09Count    `json:"bdom"`
+	Cli     []zzG09CliCount `json:"cli"`
 }
 
 func zzG09ReadStats() (st *zzG09Stats, err error) {
@@ -796,27 +814,34 @@ func zzG09ReadStats() (st *zzG09Stats, err error) {
 	}
 
 	st = &zzG09Stats{Total: resp.Total, Blocked: resp.Blocked, Other: resp.SB + resp.SS + resp.Par,
-		Dom: []zzG09Count{}, BDom: []zzG09Count{}, Cli: []zzG09Count{}}
-	conv := func(in []map[string]int, key func(string) string) (out []zzG09Count) {
+		Dom: []zzG09Count{}, BDom: []zzG09Count{}, Cli: []zzG09CliCount{}}
+	conv := func(in []map[string]int) (out []zzG09Count) {
 		out = []zzG09Count{}
 		for _, m := range in {
 			for k, c := range m {
-				out = append(out, zzG09Count{K: key(k), C: c})
+				out = append(out, zzG09Count{K: zzG09AbsName(k), C: c})
 			}
 		}
 
-		sort.Slice(out, func(i, j int) bool { return out[i].K < out[j].K })
+		sort.Slice(out, func(i, j int) bool { return strings.Join(out[i].K, ".") < strings.Join(out[j].K, ".") })
 
 		return out
 	}
-	st.Dom = conv(resp.Dom, func(s string) string { return strings.ToLower(strings.TrimSuffix(s, ".")) })
-	st.BDom = conv(resp.BDom, func(s string) string { return strings.ToLower(strings.TrimSuffix(s, ".")) })
-	st.Cli = conv(resp.Cli, func(s string) string {
-		if n := zzG09AbsAddr(s); n >= 0 {
-			return "a" + strconv.Itoa(n)
+	st.Dom, st.BDom = conv(resp.Dom), conv(resp.BDom)
+	for _, m := range resp.Cli {
+		for k, c := range m {
+			if _, err = netip.ParseAddr(k); err == nil {
+				st.Cli = append(st.Cli, zzG09CliCount{T: "a", V: zzG09AbsAddr(k), C: c})
+			} else {
+				st.Cli = append(st.Cli, zzG09CliCount{T: "c", V: zzG09AbsCid(k), C: c})
+			}
 		}
+	}
 
-		return "c" + strings.ToLower(s)
+	sort.Slice(st.Cli, func(i, j int) bool {
+		a, b := st.Cli[i], st.Cli[j]
+
+		return a.T < b.T || a.T == b.T && a.V < b.V
 	})
 
 	return st, nil
@@ -824,13 +849,18 @@ func zzG09ReadStats() (st *zzG09Stats, err error) {
 
 // zzG09Obs is everything observed after one step.
 type zzG09Obs struct {
-	Code  string        `json:"code"` // admin operations: "ok" / "err"
-	Reply *zzG09Reply   `json:"reply"`
-	Asked []zzG09Asked  `json:"asked"`
-	Log   []zzG09LogItem `json:"log"`
-	Stats *zzG09Stats   `json:"stats"`
-	Err   string        `json:"err"`
-	Ms    int64         `json:"ms"`
+	Code  string       `json:"code"` // admin operations: "ok" / "err"
+	Reply *zzG09Reply  `json:"reply"`
+	Asked []zzG09Asked `json:"asked"`
+	// The log view as a delta against the previous observation: Head followed
+	// by the last Tail items of the previous view.
+	Head  []zzG09LogItem `json:"head"`
+	Tail  int            `json:"tail"`
+	Stats *zzG09Stats    `json:"stats"`
+	Err   string         `json:"err"`
+	Ms    int64          `json:"ms"`
+
+	log []zzG09LogItem
 }
 
 // zzG09WaitRules waits until the filtering engines contain the marker rule
@@ -953,19 +983,498 @@ func (sys *zzG09Sys) exec(rng *rand.Rand, op zzG09M, dropWait, ruleWait time.Dur
 
 	var err error
 	obs.Asked = sys.takeAsked()
-	if obs.Log, err = zzG09ReadLog(); err != nil {
+	if obs.log, err = zzG09ReadLog(); err != nil {
 		obs.Err += " " + err.Error()
-		obs.Log = []zzG09LogItem{}
+		obs.log = []zzG09LogItem{}
 	}
+
+	if obs.Reply == nil {
+		obs.Reply = &zzG09Reply{Cname: []string{}, Addrs: []string{}}
+	}
+
+	obs.Err = strings.TrimSpace(obs.Err)
 
 	if obs.Stats, err = zzG09ReadStats(); err != nil {
 		obs.Err += " " + err.Error()
-		obs.Stats = &zzG09Stats{Dom: []zzG09Count{}, BDom: []zzG09Count{}, Cli: []zzG09Count{}}
+		obs.Stats = &zzG09Stats{Dom: []zzG09Count{}, BDom: []zzG09Count{}, Cli: []zzG09CliCount{}}
 	}
 
 	obs.Ms = time.Since(t0).Milliseconds()
 
 	return obs
+}
+
+// ------------------------------------------------------------ histories
+
+// zzG09Line is one line of the recorded trace.
+type zzG09Line struct {
+	H   int             `json:"h"`
+	I   int             `json:"i"`
+	Op  json.RawMessage `json:"op"`
+	Obs *zzG09Obs       `json:"obs"`
+}
+
+// zzG09Recorder turns observations into trace lines (log view as a delta).
+type zzG09Recorder struct {
+	w    *zzWriter
+	prev []zzG09LogItem
+	n    int
+}
+
+func zzG09SameItem(a, b *zzG09LogItem) (ok bool) {
+	x, _ := json.Marshal(a)
+	y, _ := json.Marshal(b)
+
+	return bytes.Equal(x, y)
+}
+
+func (r *zzG09Recorder) put(h, i int, op json.RawMessage, obs *zzG09Obs) {
+	v, p := obs.log, r.prev
+	k := 0
+	for k < len(v) && k < len(p) && zzG09SameItem(&v[len(v)-1-k], &p[len(p)-1-k]) {
+		k++
+	}
+
+	obs.Head, obs.Tail = v[:len(v)-k], k
+	r.prev = v
+	r.w.put(&zzG09Line{H: h, I: i, Op: op, Obs: obs})
+	r.n++
+}
+
+// zzG09Reset posts the default value of every family through the API,
+// whatever the current state is (it lists the clients and the rewrites that
+// exist and deletes them), clears the log and resets the statistics.
+func (sys *zzG09Sys) reset(ruleWait time.Duration) (obs *zzG09Obs) {
+	obs = &zzG09Obs{Code: "ok", Asked: []zzG09Asked{}, Reply: &zzG09Reply{Cname: []string{}, Addrs: []string{}}}
+	t0 := time.Now()
+	post, put := http.MethodPost, http.MethodPut
+	note := func(what string, code int, body []byte) {
+		if code != http.StatusOK {
+			obs.Err += fmt.Sprintf("%s: status %d: %s; ", what, code, strings.TrimSpace(string(body)))
+		}
+	}
+
+	code, body := zzG09API(http.MethodGet, "/control/clients", nil)
+	note("clients", code, body)
+	var cl struct {
+		Clients []struct {
+			Name string `json:"name"`
+		} `json:"clients"`
+	}
+	_ = json.Unmarshal(body, &cl)
+	for _, c := range cl.Clients {
+		code, body = zzG09API(post, "/control/clients/delete", zzG09M{"name": c.Name})
+		note("clients/delete", code, body)
+	}
+
+	code, body = zzG09API(post, "/control/access/set", zzG09M{
+		"allowed_clients": []string{}, "disallowed_clients": []string{}, "blocked_hosts": []string{}})
+	note("access/set", code, body)
+
+	zzG09Marker++
+	marker := fmt.Sprintf("marker-%d.g09.invalid", zzG09Marker)
+	code, body = zzG09API(post, "/control/filtering/set_rules", zzG09M{"rules": []string{"||" + marker + "^"}})
+	note("set_rules", code, body)
+	zzG09WaitRules(marker, ruleWait)
+
+	code, body = zzG09API(http.MethodGet, "/control/rewrite/list", nil)
+	note("rewrite/list", code, body)
+	var rws []zzG09M
+	_ = json.Unmarshal(body, &rws)
+	for _, e := range rws {
+		code, body = zzG09API(post, "/control/rewrite/delete", e)
+		note("rewrite/delete", code, body)
+	}
+
+	code, body = zzG09API(put, "/control/blocked_services/update", zzG09M{"ids": []string{}, "schedule": zzG09M{"time_zone": "UTC"}})
+	note("blocked_services", code, body)
+	code, body = zzG09API(post, "/control/protection", zzG09M{"enabled": true})
+	note("protection", code, body)
+	code, body = zzG09API(post, "/control/filtering/config", zzG09M{"enabled": true, "interval": 24})
+	note("filtering/config", code, body)
+	code, body = zzG09API(put, "/control/querylog/config/update", zzG09M{
+		"enabled": true, "anonymize_client_ip": false, "interval": 86400000, "ignored": []string{}})
+	note("querylog/config", code, body)
+	code, body = zzG09API(put, "/control/stats/config/update", zzG09M{"enabled": true, "interval": 86400000, "ignored": []string{}})
+	note("stats/config", code, body)
+	code, body = zzG09API(post, "/control/querylog_clear", zzG09M{})
+	note("querylog_clear", code, body)
+	code, body = zzG09API(post, "/control/stats_reset", zzG09M{})
+	note("stats_reset", code, body)
+
+	var err error
+	sys.takeAsked()
+	if obs.log, err = zzG09ReadLog(); err != nil {
+		obs.Err += err.Error()
+		obs.log = []zzG09LogItem{}
+	}
+
+	if obs.Stats, err = zzG09ReadStats(); err != nil {
+		obs.Err += err.Error()
+		obs.Stats = &zzG09Stats{Dom: []zzG09Count{}, BDom: []zzG09Count{}, Cli: []zzG09CliCount{}}
+	}
+
+	obs.Err = strings.TrimSpace(obs.Err)
+	obs.Ms = time.Since(t0).Milliseconds()
+
+	return obs
+}
+
+func zzG09EnvInt(k string, def int) (v int) {
+	v, err := strconv.Atoi(os.Getenv(k))
+	if err != nil {
+		return def
+	}
+
+	return v
+}
+
+// zzG09StepRng is the source of the concretisation choices of one step
+// (letter case, order of unordered lists): a function of the seed and of the
+// step's position only, so that a history replays identically.
+func zzG09StepRng(h, i int) (rng *rand.Rand) {
+	return rand.New(rand.NewSource(zzSeed()*1000003 + int64(h)*7919 + int64(i)))
+}
+
+var zzG09ResetOp = json.RawMessage(`{"k":"reset"}`)
+
+// TestZZVerifG09Run executes the histories of VERIF_IN (one line per history:
+// {"h": number, "fresh": bool, "ops": [abstract operations]}) on ONE booted
+// system, in order, and records one trace line per step in VERIF_OUT.  A
+// history that is not "fresh" starts with the reset prologue; a fresh one (only
+// meaningful as the first of the file) starts from the boot state.
+func TestZZVerifG09Run(t *testing.T) {
+	w := zzNewWriter(t, "VERIF_OUT")
+	defer w.close()
+
+	type hist struct {
+		H     int               `json:"h"`
+		Fresh bool              `json:"fresh"`
+		Ops   []json.RawMessage `json:"ops"`
+	}
+
+	var hists []*hist
+	zzReadNDJSON(t, "VERIF_IN", func(line []byte) {
+		h := &hist{}
+		if err := json.Unmarshal(line, h); err != nil {
+			t.Fatalf("bad history line: %v", err)
+		}
+
+		hists = append(hists, h)
+	})
+
+	dropWait := time.Duration(zzG09EnvInt("VERIF_G09_DROPWAIT", 250)) * time.Millisecond
+	ruleWait := time.Duration(zzG09EnvInt("VERIF_G09_RULEWAIT", 3000)) * time.Millisecond
+	dir := os.Getenv("VERIF_DIR")
+	if dir == "" {
+		dir = t.TempDir()
+	}
+
+	sys := zzG09Boot(t, dir, uint(zzG09EnvInt("VERIF_G09_MEMSIZE", 1000)))
+	defer sys.shutdown()
+
+	rec := &zzG09Recorder{w: w}
+	for _, h := range hists {
+		if !h.Fresh {
+			rec.put(h.H, 0, zzG09ResetOp, sys.reset(ruleWait))
+		}
+
+		for i, raw := range h.Ops {
+			var op zzG09M
+			if err := json.Unmarshal(raw, &op); err != nil {
+				t.Fatalf("history %d op %d: %v", h.H, i, err)
+			}
+
+			rec.put(h.H, i+1, raw, sys.exec(zzG09StepRng(h.H, i+1), op, dropWait, ruleWait))
+		}
+	}
+}
+
+// ------------------------------------------------- direction B: random driver
+
+// zzG09Gen draws abstract operations from a universe larger than the one TLC
+// enumerates: more addresses (incl. the anonymised forms of others), three
+// ClientIDs, sub- and look-alike names, TXT questions, wildcard / exception /
+// IPv6 / CNAME rewrites, $important and $dnstype rules, CIDR and ClientID
+// access entries, allow-list mode, ||domain^ and *.wildcard ignore patterns,
+// three clients with random identifiers and switches.
+type zzG09Gen struct {
+	rng      *rand.Rand
+	sinceClr int
+}
+
+var (
+	zzG09GenAddrs = []int{2, 3, 4, 5, 8, 9, 12}
+	zzG09GenNames = [][]string{
+		{"fwd", "example"}, {"ads", "example"}, {"sub", "ads", "example"}, {"xads", "example"},
+		{"www", "youtube", "com"}, {"m", "youtube", "com"}, {"www", "facebook", "com"},
+		{"rw", "example"}, {"a", "rw", "example"}, {"b", "a", "rw", "example"},
+		{"deny", "example"}, {"sub", "deny", "example"}, {"other", "test"},
+	}
+	zzG09RuleTargets = [][]string{
+		{"ads", "example"}, {"sub", "ads", "example"}, {"youtube", "com"}, {"rw", "example"}, {"fwd", "example"}, {"example"},
+	}
+	zzG09RwNames    = [][]string{{"rw", "example"}, {"a", "rw", "example"}, {"ads", "example"}}
+	zzG09CnameTgt   = []string{"tgt", "example"} // no rule, table or list ever names it
+	zzG09IgnTargets = [][]string{{"ads", "example"}, {"rw", "example"}, {"youtube", "com"}, {"example"}, {"fwd", "example"}}
+	zzG09DenyNames  = [][]string{{"deny", "example"}, {"sub", "deny", "example"}, {"ads", "example"}}
+)
+
+func zzG09Bits(n, width int) (b []int) {
+	b = make([]int, width)
+	for i := 0; i < width; i++ {
+		b[i] = (n >> (zzG09W - 1 - i)) & 1
+	}
+
+	return b
+}
+
+func (g *zzG09Gen) pick(n int) int { return g.rng.Intn(n) }
+func (g *zzG09Gen) coin(p float64) bool { return g.rng.Float64() < p }
+
+func (g *zzG09Gen) subset(all []string, p float64) (out []string) {
+	out = []string{}
+	for _, x := range all {
+		if g.coin(p) {
+			out = append(out, x)
+		}
+	}
+
+	return out
+}
+
+func (g *zzG09Gen) client() (c zzG09M) {
+	ids := [][]any{}
+	seen := map[string]bool{}
+	for n := 1 + g.pick(2); len(ids) < n; {
+		var id []any
+		switch g.pick(4) {
+		case 0, 1:
+			id = []any{"ip", zzG09GenAddrs[g.pick(len(zzG09GenAddrs))], 0}
+		case 2:
+			l := 2 + g.pick(2)
+			a := zzG09GenAddrs[g.pick(len(zzG09GenAddrs))]
+			id = []any{"net", a &^ (1<<(zzG09W-l) - 1), l}
+		default:
+			id = []any{"cid", 1 + g.pick(3), 0}
+		}
+
+		k := fmt.Sprint(id)
+		if !seen[k] {
+			seen[k] = true
+			ids = append(ids, id)
+		}
+	}
+
+	return zzG09M{
+		"name": 1 + g.pick(3), "ids": ids, "own": g.coin(0.5), "bs": g.coin(0.4),
+		"vals": zzG09M{"filt": g.coin(0.5)}, "svcs": g.subset([]string{"yt", "fb"}, 0.5), "pause": false,
+		"ignQ": g.coin(0.25), "ignS": g.coin(0.25),
+	}
+}
+
+func (g *zzG09Gen) rule() (r zzG09M) {
+	kind := "block"
+	if g.coin(0.35) {
+		kind = "allow"
+	}
+
+	dt, dtype := "none", ""
+	if g.coin(0.25) {
+		dt, dtype = []string{"only", "except"}[g.pick(2)], []string{"A", "AAAA"}[g.pick(2)]
+	}
+
+	return zzG09M{
+		"place": "custom", "kind": kind, "pat": []string{"domain", "domain", "exact", "wild"}[g.pick(4)],
+		"tgt": zzG09M{"isip": false, "n": zzG09RuleTargets[g.pick(len(zzG09RuleTargets)-1)]},
+		"imp": g.coin(0.2), "dt": dt, "dtype": dtype, "cl": "none", "clv": "", "da": []string{}, "ip": "", "bad": false,
+	}
+}
+
+func (g *zzG09Gen) rewrite() (e zzG09M) {
+	e = zzG09M{"w": g.coin(0.3), "n": zzG09RwNames[g.pick(len(zzG09RwNames))], "k": "ip4", "ip": "", "t": []string{}}
+	switch g.pick(8) {
+	case 0, 1, 2:
+		e["ip"] = []string{"i1", "i2", "i3"}[g.pick(3)]
+	case 3:
+		e["k"], e["ip"] = "ip6", "i6"
+	case 4, 5:
+		e["k"], e["t"] = "cname", zzG09CnameTgt
+	case 6:
+		e["k"] = "A"
+	default:
+		e["k"] = "AAAA"
+	}
+
+	return e
+}
+
+func (g *zzG09Gen) accEntry() (e zzG09M) {
+	switch g.pick(4) {
+	case 0, 1:
+		return zzG09M{"k": "ip", "fam": "v4", "bits": zzG09Bits(zzG09GenAddrs[g.pick(len(zzG09GenAddrs))], zzG09W), "id": "", "sp": "lower"}
+	case 2:
+		return zzG09M{"k": "cidr", "fam": "v4", "bits": zzG09Bits(zzG09GenAddrs[g.pick(len(zzG09GenAddrs))], 2+g.pick(2)), "id": "", "sp": "lower"}
+	default:
+		return zzG09M{"k": "id", "fam": "", "bits": []int{}, "id": zzG09CidNames[1+g.pick(3)], "sp": "lower"}
+	}
+}
+
+func (g *zzG09Gen) accList(max int) (out []zzG09M) {
+	out = []zzG09M{}
+	seen := map[string]bool{}
+	for n := g.pick(max + 1); len(out) < n; {
+		e := g.accEntry()
+		if k := fmt.Sprint(e); !seen[k] {
+			seen[k] = true
+			out = append(out, e)
+		}
+	}
+
+	return out
+}
+
+func (g *zzG09Gen) pats(kinds []string, targets [][]string, max int, withQt bool) (out []zzG09M) {
+	out = []zzG09M{}
+	seen := map[string]bool{}
+	for n := g.pick(max + 1); len(out) < n; {
+		p := zzG09M{"k": kinds[g.pick(len(kinds))], "n": targets[g.pick(len(targets))]}
+		if withQt {
+			p["qt"] = ""
+		}
+
+		if k := fmt.Sprint(p); !seen[k] {
+			seen[k] = true
+			out = append(out, p)
+		}
+	}
+
+	return out
+}
+
+// next draws the next operation.
+func (g *zzG09Gen) next() (op zzG09M) {
+	if g.sinceClr >= 28 {
+		g.sinceClr = 0
+
+		return zzG09M{"k": "qlog_clear"}
+	}
+
+	if g.coin(0.55) {
+		g.sinceClr++
+		q := zzG09M{"k": "query", "addr": zzG09GenAddrs[g.pick(len(zzG09GenAddrs))], "cid": 0,
+			"proto": []string{"udp", "udp", "tcp"}[g.pick(3)],
+			"name":  zzG09GenNames[g.pick(len(zzG09GenNames))], "qt": "A"}
+		if g.coin(0.3) {
+			q["proto"] = "https"
+			if g.coin(0.8) {
+				q["cid"] = 1 + g.pick(3)
+			}
+		}
+
+		switch g.pick(10) {
+		case 0, 1, 2:
+			q["qt"] = "AAAA"
+		case 3:
+			q["qt"] = "TXT"
+		}
+
+		return q
+	}
+
+	switch g.pick(20) {
+	case 0, 1, 2:
+		return zzG09M{"k": "client_add", "c": g.client()}
+	case 3, 4:
+		return zzG09M{"k": "client_update", "name": 1 + g.pick(3), "c": g.client()}
+	case 5:
+		return zzG09M{"k": "client_delete", "name": 1 + g.pick(3)}
+	case 6, 7:
+		op = zzG09M{"k": "access_set", "allowed": []zzG09M{}, "disallowed": g.accList(2),
+			"hosts": g.pats([]string{"exact", "domain", "wild"}, zzG09DenyNames, 2, true)}
+		if g.coin(0.25) {
+			op["allowed"], op["disallowed"] = g.accList(3), []zzG09M{}
+		}
+
+		return op
+	case 8, 9, 10:
+		rules := []zzG09M{}
+		seen := map[string]bool{}
+		for n := g.pick(4); len(rules) < n; {
+			r := g.rule()
+			if k := fmt.Sprint(r); !seen[k] {
+				seen[k] = true
+				rules = append(rules, r)
+			}
+		}
+
+		return zzG09M{"k": "set_rules", "rules": rules}
+	case 11, 12:
+		return zzG09M{"k": "rewrite_add", "e": g.rewrite()}
+	case 13:
+		return zzG09M{"k": "rewrite_delete", "e": g.rewrite()}
+	case 14:
+		return zzG09M{"k": "blocked_services", "svcs": g.subset([]string{"yt", "fb"}, 0.5)}
+	case 15:
+		return zzG09M{"k": "protection", "on": g.coin(0.6)}
+	case 16:
+		return zzG09M{"k": "filtering", "on": g.coin(0.6)}
+	case 17:
+		return zzG09M{"k": "qlog_config", "enabled": g.coin(0.8), "anon": g.coin(0.4),
+			"ignored": g.pats([]string{"plain", "domain", "wild"}, zzG09IgnTargets, 2, false)}
+	case 18:
+		return zzG09M{"k": "stats_config", "enabled": g.coin(0.8),
+			"ignored": g.pats([]string{"plain", "domain", "wild"}, zzG09IgnTargets, 2, false)}
+	default:
+		if g.coin(0.5) {
+			g.sinceClr = 0
+
+			return zzG09M{"k": "qlog_clear"}
+		}
+
+		return zzG09M{"k": "stats_reset"}
+	}
+}
+
+// TestZZVerifG09Random is the direction-B driver: VERIF_G09_HISTS random
+// histories of VERIF_G09_STEPS operations each on one booted system.  The
+// first history starts from the boot state, the others from the reset
+// prologue.  Histories are numbered from VERIF_G09_FIRSTH.
+func TestZZVerifG09Random(t *testing.T) {
+	w := zzNewWriter(t, "VERIF_OUT")
+	defer w.close()
+
+	dropWait := time.Duration(zzG09EnvInt("VERIF_G09_DROPWAIT", 250)) * time.Millisecond
+	ruleWait := time.Duration(zzG09EnvInt("VERIF_G09_RULEWAIT", 3000)) * time.Millisecond
+	nh, steps, first := zzG09EnvInt("VERIF_G09_HISTS", 4), zzG09EnvInt("VERIF_G09_STEPS", 100), zzG09EnvInt("VERIF_G09_FIRSTH", 1)
+	dir := os.Getenv("VERIF_DIR")
+	if dir == "" {
+		dir = t.TempDir()
+	}
+
+	sys := zzG09Boot(t, dir, uint(zzG09EnvInt("VERIF_G09_MEMSIZE", 1000)))
+	defer sys.shutdown()
+
+	rec := &zzG09Recorder{w: w}
+	for h := first; h < first+nh; h++ {
+		g := &zzG09Gen{rng: rand.New(rand.NewSource(zzSeed()*7907 + int64(h)))}
+		if h != first {
+			rec.put(h, 0, zzG09ResetOp, sys.reset(ruleWait))
+		}
+
+		for i := 1; i <= steps; i++ {
+			op := g.next()
+			raw, err := json.Marshal(op)
+			if err != nil {
+				t.Fatalf("marshal: %v", err)
+			}
+
+			// Through JSON, so that exec sees exactly what a replay will see.
+			var op2 zzG09M
+			_ = json.Unmarshal(raw, &op2)
+			rec.put(h, i, raw, sys.exec(zzG09StepRng(h, i), op2, dropWait, ruleWait))
+		}
+	}
 }
 
 // TestZZVerifG09Spike is a development probe.
@@ -984,6 +1493,7 @@ func TestZZVerifG09Spike(t *testing.T) {
 		}
 
 		obs := sys.exec(nil, op, 300*time.Millisecond, 3*time.Second)
+		obs.Head = obs.log
 		b, _ := json.Marshal(obs)
 		fmt.Printf("OP %s\n  -> %s\n", js, b)
 	}
